@@ -158,7 +158,7 @@ def r3_walk(ctx, prog):
     r = Rule("C03.R3", "chain walk: follow the map, stop at a defining locale, loops end at the default locale; fresh visited set per walk",
              "`the first locale - walking from the locale itself through its inherits chain - that defines the key; when the "
              "chain loops, the default locale`; a visited set carried over from another walk reports loops that are not there",
-             floor=6)
+             floor=4)
     fn = ctx.ast.fn(PL, "default_of_inner", impl_self="DefaultedLocales")
     if fn is None:
         r.missing("DefaultedLocales::default_of_inner")
